@@ -93,8 +93,7 @@ def run(ctx):
     cur_t, bound_t = z.term_of(args[2]), z.term_of(args[3])
     if cur_t is None or bound_t is None:
         raise AnalysisBroken("Parse: cursor/bound arguments of parseValue are not plain variables")
-    # the local holding the result
-    par = parse.parents()
+    # the local holding the result: declared from / assigned from the parseValue call
     holder = None
     for i in parse.walk():
         n = parse.nodes[i]
@@ -102,28 +101,58 @@ def run(ctx):
             for d in n["decls"]:
                 if d.get("init", -1) >= 0 and pv_calls[0] in list(parse.walk(d["init"])):
                     holder = d["n"]
+        if n["k"] in ("BinaryOperator", "CXXOperatorCallExpr") and n.get("op") == "=" and pv_calls[0] in list(parse.walk(i)):
+            lhs = parse.nodes[parse.strip(n["ch"][0] if n["k"] == "BinaryOperator" else parse.call_args(i)[0])]
+            if lhs["k"] == "DeclRefExpr":
+                holder = lhs["n"]
     if holder is None:
         raise AnalysisBroken("Parse: result of parseValue is not held in a local")
-    states = dataflow.run(parse, z)
 
-    def visit_gate(b, i, e, st):
+    def g_retag(fn, tag, e):
+        if "n" not in e or e.get("k"):
+            return tag
+        n = fn.nodes[e["n"]]
+        if n["k"] == "DeclStmt":
+            for d in n["decls"]:
+                if d.get("n") == holder:
+                    return "parsed" if d.get("init", -1) >= 0 and pv_calls[0] in list(fn.walk(d["init"])) else "fresh"
+        if n["k"] in ("BinaryOperator", "CXXOperatorCallExpr") and n.get("op") == "=":
+            lhs = fn.nodes[fn.strip(n["ch"][0] if n["k"] == "BinaryOperator" else fn.call_args(e["n"])[0])]
+            if lhs["k"] == "DeclRefExpr" and lhs["n"] == holder:
+                return "parsed" if pv_calls[0] in list(fn.walk(e["n"])) else "other"
+        if n["k"] in ("CallExpr", "CXXMemberCallExpr") and fn.call_simple_name(e["n"]) == "Reset":
+            rc = fn.call_receiver(e["n"])
+            if rc is not None and fn.nodes[fn.strip(rc)].get("n") == holder:
+                return "reset"
+        return tag
+
+    pz = Partitioned(z, g_retag, "fresh")
+    states = dataflow.run(parse, pz)
+
+    def visit_gate(b, i, e, pst):
         if e is None or "n" not in e or e.get("k"):
             return
         n = parse.nodes[e["n"]]
-        if n["k"] != "ReturnStmt" or st.bottom:
+        if n["k"] != "ReturnStmt":
             return
         v = n.get("val", -1)
         if astq.is_default_constructed(parse, v):
             gate.ob(parse.q, parse.text(e["n"]), True, "failing exit returns a default-constructed value", parse.loc(e["n"]), nontrivial=False)
             return
         if astq.refs_decl(parse, v, holder):
-            ok = st.le(cur_t, bound_t, 0) and st.le(bound_t, cur_t, 0)
-            gate.ob(parse.q, parse.text(e["n"]), ok,
-                    "need %s == %s at the return" % (Zone.pretty_term(cur_t), Zone.pretty_term(bound_t)),
-                    parse.loc(e["n"]), {"facts": fmt_state(st, {cur_t, bound_t})})
+            for tag, st in sorted(pst.items()):
+                if st.bottom:
+                    continue
+                if tag in ("fresh", "reset"):
+                    gate.ob(parse.q, parse.text(e["n"]) + " [%s]" % tag, True, "the value returned on this path is Undefined", parse.loc(e["n"]), nontrivial=False)
+                    continue
+                ok = st.le(bound_t, cur_t, 0)
+                gate.ob(parse.q, parse.text(e["n"]) + " [%s]" % tag, ok,
+                        "the parsed value may be returned only when nothing but whitespace is left: need %s >= %s" % (Zone.pretty_term(cur_t), Zone.pretty_term(bound_t)),
+                        parse.loc(e["n"]), {"facts": fmt_state(st, {cur_t, bound_t})})
             return
         gate.broke("Parse: return of unrecognised shape %s" % parse.text(e["n"]))
-    dataflow.replay(parse, z, states, visit_gate)
+    dataflow.replay(parse, pz, states, visit_gate)
 
     # ---------------- PR-fail / PR-closed
     for name in DESCENT:
@@ -265,4 +294,5 @@ def run(ctx):
                         uses = [u for u in f.walk() if f.nodes[u]["k"] == "DeclRefExpr" and f.nodes[u].get("d") == holder["d"]]
                         ok = all(u in then or u in set(f.walk(f.nodes[i]["cond"])) for u in uses)
             unesc.ob(f.q, f.text(c), ok, "length returned by UnEscape must be used only under `len != 0`", f.loc(c))
-    return [gate, fail, closed, unesc]
+    from rules.common import rule_narrow_units
+    return [gate, fail, closed, unesc, rule_narrow_units(ctx, m, ["JSON.hpp", "JSONUtils.hpp", "StringUtils.hpp"])]
